@@ -28,6 +28,32 @@ void harness(void) {
 #elif defined(VF_FN_mod_reduce)
 	VF_ASSUME(M.digits >= 2 || (M.digits == 1 && M.num[0] >= 2));
 	e = bn_mod_reduce(a, m, NULL);
+#elif defined(VF_FN_sqrt1)
+	e = bn_sqrt1(a);
+#elif defined(VF_FN_exp_digit)
+	e = bn_exp_digit(a, d);
+#elif defined(VF_FN_gcd) || defined(VF_FN_gcd_bin)
+	{
+		VF_NONDET_OBJ(bn_t, G);
+		VF_ASSUME(G.count >= 1 && G.count <= BN_MAX_DIGITS);
+#ifdef VF_MAXVAL_DIGITS	/* operands of at most that many digits (capacity may be larger) */
+		VF_ASSUME(A.digits <= VF_MAXVAL_DIGITS && B.digits <= VF_MAXVAL_DIGITS);
+#endif
+#if defined(VF_FN_gcd)
+		e = bn_gcd(&G, a, b);
+#else
+		e = bn_gcd_bin(&G, a, b);
+#endif
+	}
+#elif defined(VF_FN_mod_inv_bin)
+#ifdef VF_MAXVAL_DIGITS
+	VF_ASSUME(A.digits <= VF_MAXVAL_DIGITS && M.digits <= VF_MAXVAL_DIGITS);
+#endif
+	e = bn_mod_inv_bin(a, m, NULL);
+#elif defined(VF_FN_mod_legendre)
+	e = bn_mod_legendre(a, m, NULL);
+#elif defined(VF_FN_mod_sqrt)
+	e = bn_mod_sqrt(a, m, NULL);
 #elif defined(VF_FN_mod_exp_digit)
 	e = bn_mod_exp_digit(a, k, m, NULL);
 #elif defined(VF_FN_mod_exp)
